@@ -2,8 +2,11 @@ package props
 
 import (
 	"bytes"
+	"crypto/sha256"
 	"fmt"
+	"io"
 	"sort"
+	"strings"
 
 	"fgverif/gen"
 	"fgverif/impl"
@@ -20,7 +23,7 @@ func init() { register(c18{}) }
 func (c18) ID() string            { return "C18" }
 func (c18) EvidenceLevel() string { return "exploration" }
 func (c18) Rule() string {
-	return "every runnable dispatch level executes the same seed-determined case list in its own processes and logs, per case, the digest of the bytes handed out and the outcome kind (EOF, unexpected-EOF, corrupt, panic); an offline checker joins the logs on the case id and requires all levels to agree (and each child to have logged the level it was asked to run). Decode cases: valid, truncated, mutated and single-fault streams from the standard library and the synthesiser (never from fastgo's own writers, whose output may legitimately differ between levels), padded so that the AVX2 loop's entry condition (>= 25 input bytes, >= 275 bytes of output room) holds when the defect is reached, the same inputs in small chunks that keep it false, and outputs crossing the 64 KiB history wrap. Compress cases: decoded result and C01/C19/C20 verdicts per level must agree. Non-trivial: the case was executed at >= 2 levels and is not an empty input; distinct by input digest."
+	return "every runnable dispatch level executes the same seed-determined case list in its own processes and logs, per case, the digest of the bytes handed out and the outcome kind (EOF, unexpected-EOF, corrupt, panic); an offline checker joins the logs on the case id and requires all levels to agree (and each child to have logged the level it was asked to run). Decode cases: valid, truncated, mutated and single-fault streams from the standard library and the synthesiser (never from fastgo's own writers, whose output may legitimately differ between levels), padded so that the AVX2 loop's entry condition (>= 25 input bytes, >= 275 bytes of output room) holds when the defect is reached, the same inputs in small chunks that keep it false, and outputs crossing the 64 KiB history wrap. Compress cases: decoded result and C01/C19/C20 verdicts per level must agree. Non-trivial: the case was executed at >= 2 levels and is not an empty input; distinct by input digest. Inputs include the synthesised corner shapes of the decoder (match-edge, window-edge, longest header, two deep sub-trees; a third of the match-edge streams also delivered in every possible two-piece split, so that the assembly loop runs out of input at every byte) and compress inputs that fill the token buffer exactly where a long match begins (all lengths 32700..32800 and 65300..65560 per accelerated setting) or re-enter the match finder with the token buffer nearly full."
 }
 func (c18) NumCases(tier string) int {
 	if tier == "thorough" {
@@ -40,6 +43,48 @@ func (c18) Run(c *mon.Ctx, i int) {
 			d = gen.Make(r, []string{"farcopy3", "farcopy2", "farcopy", "sparsematch", "farcopy3"}[r.Intn(5)], r.Range(40000, 200000))
 		}
 		ops := gen.Schedule(r, len(d.B), gen.FlushPositions(r, len(d.B)), gen.PartitionStyles[r.Intn(4)])
+		if i%48 == 23 {
+			// the token buffer fills exactly where a long match begins, or the match
+			// finder is re-entered with the token buffer nearly full (the portable
+			// fallback of the assembly levels): paths that exist at some levels only
+			if r.Bool() {
+				// sixteen lengths per case, every accelerated setting in turn
+				s = accelSettings[(i/48)%8]
+				k0 := (i / 48 / 8) * 16
+				var vs []string
+				for t := 0; t < 16; t++ {
+					L := c01CapLens[(k0+t)%len(c01CapLens)]
+					b := r.Bytes(L + 1200)
+					v := byte(r.Intn(256))
+					for j := L; j < L+r.Pick(300, 600, 900); j++ {
+						b[j] = v
+					}
+					o, e := emit(c.API, s, b, []gen.Op{{Kind: "write", N: len(b)}, {Kind: "close"}})
+					c.Eval(1)
+					vd := "write-error"
+					if e == nil {
+						if dec, e2 := stdlibInflate(o, nil); e2 != nil {
+							vd = "decoded-error"
+						} else if bytes.Equal(dec, b) {
+							vd = "ok"
+						} else {
+							vd = fmt.Sprintf("decoded-differs(%d bytes for %d)", len(dec), len(b))
+						}
+					}
+					vs = append(vs, fmt.Sprintf("L%d:%s", L, vd))
+				}
+				c.Extra("r", fmt.Sprint(vs))
+				c.Extra("k", "compress-token-cap-lengths "+s.String())
+				c.Count("compress-cases-at-the-token-cap", 1)
+				c.Nontrivial("compress-token-cap", s.String(), k0)
+				return
+			} else {
+				centre := map[bool]int{true: 4000, false: 275}[s.Win4K]
+				d = tokenCapFarCopy(r, centre-140+r.Intn(280), 80000, r.Pick(4097, 4098, 32769))
+			}
+			ops = []gen.Op{{Kind: "write", N: len(d.B)}, {Kind: "close"}}
+			c.Count("compress-cases-at-the-token-cap", 1)
+		}
 		out, err := emit(c.API, s, d.B, ops)
 		c.Eval(1)
 		verdict := "write-error"
@@ -115,16 +160,41 @@ func (c18) Run(c *mon.Ctx, i int) {
 		in = r.Bytes(n)
 		in[0] = in[0]&^6 | byte(r.Pick(2, 4))
 		kind = "random"
+	case 8:
+		// synthesised corner shapes of the decoder (packed table entries meeting
+		// the end of the 64 KiB output window, the longest header, two deep
+		// sub-trees); with the chunked schedule below, input also runs out near them
+		switch (i / 12) % 4 {
+		case 0:
+			in, _, kind = synth.MatchEdge(r, (i/48)%4, (i/192)%3, r.Pick(258, 258, 257), r.Pick(0, 0, 1, 2))
+		case 1:
+			in, _, kind = synth.WindowEdge(r, (i/48)%6, r.Range(1, 4), r.Pick(0, 0, 1, 2), r.Bool(), r.Chance(1, 4))
+		case 2:
+			in, _, kind = synth.MaxHeader(r, r.Pick(0, 0, 1, 5, 37), r.Bool())
+		default:
+			in, _, kind = synth.TwoDeepTrees(r, r.Bool())
+		}
+		kind = "shape:" + kind
+		if len(kind) > 60 {
+			kind = kind[:60]
+		}
+		c.Count("decode-cases-with-synthesised-corner-shapes", 1)
 	default:
 		vs := streamNoFastgo(r, 200000)
 		in = vs.S
 		kind = "valid"
 	}
 	var parts []string
-	for _, sch := range []string{"bufio-64k", "chunks"} {
+	schedules := []string{"bufio-64k", "chunks"}
+	if strings.HasPrefix(kind, "shape:") {
+		// the corner lies at one place of the stream: let input run out around it
+		// in several ways
+		schedules = []string{"bufio-64k", "chunks", "chunks1", "chunks2"}
+	}
+	for si, sch := range schedules {
 		var src interface{ Read([]byte) (int, error) }
-		if sch == "chunks" {
-			cr := gen.New(uint64(i) + 99)
+		if sch != "bufio-64k" {
+			cr := gen.New(uint64(i) + 99 + uint64(si)*7919)
 			src = &chunkReader{data: append([]byte(nil), in...), next: func() int { return cr.Range(1, 20) }}
 		} else {
 			src = bufioOf(bytes.NewReader(in), 65536)
@@ -144,6 +214,26 @@ func (c18) Run(c *mon.Ctx, i int) {
 		}
 		parts = append(parts, fmt.Sprintf("%s:%s:%d:%s", sch, oc, len(rr.out), mon.Sha(rr.out)))
 	}
+	if strings.HasPrefix(kind, "shape:match-edge") && (i/576)%3 == 0 {
+		// every two-piece delivery of the (short) stream: the first piece is large
+		// enough for the assembly loop to run and ends at every possible byte
+		h := sha256.New()
+		odd := map[string]int{}
+		for k := 1; k < len(in) && k <= 600; k++ {
+			src := &twoPiece{a: in[:k], b: in[k:]}
+			rd := c.API.NewFlateReader(src)
+			rr := drain(rd, func() int { return 1 << 16 }, 64<<20)
+			oc := impl.ErrClass(rr.err)
+			if rr.panicV != nil {
+				oc = "panic"
+			}
+			fmt.Fprintf(h, "%d:%s:%d:%s;", k, oc, len(rr.out), mon.Sha(rr.out))
+			odd[oc]++
+		}
+		c.Eval(1)
+		parts = append(parts, fmt.Sprintf("two-piece-splits:%x:%v", h.Sum(nil)[:8], odd))
+		c.Count("decode-cases-with-every-two-piece-split", 1)
+	}
 	c.Extra("r", fmt.Sprint(parts))
 	c.Extra("k", kind)
 	c.Count("decode-cases:"+kind, 1)
@@ -153,6 +243,21 @@ func (c18) Run(c *mon.Ctx, i int) {
 	if i%1999 == 0 {
 		c.Sample(map[string]interface{}{"kind": kind, "input_len": len(in), "input_sha": mon.Sha(in), "result_at_level": c.Level, "result": parts})
 	}
+}
+
+// twoPiece delivers a, then b, then io.EOF, one piece per Read call at most.
+type twoPiece struct{ a, b []byte }
+
+func (t *twoPiece) Read(p []byte) (int, error) {
+	if len(t.a) == 0 {
+		t.a, t.b = t.b, nil
+	}
+	if len(t.a) == 0 {
+		return 0, io.EOF
+	}
+	n := copy(p, t.a)
+	t.a = t.a[n:]
+	return n, nil
 }
 
 // streamNoFastgo draws a valid stream from the standard library or the synthesiser only.
